@@ -51,14 +51,15 @@ Plan gen_c18(uint64_t seed, int tier)
         {
           // ordinary statements below the flush level in between
           int64_t lvl = r.range(2, 5);
-          ops.push_back(Op{OP_LOG, lg, static_cast<int64_t>(r.below(4)), lvl, static_cast<int64_t>(r.next() >> 8),
+          // (site 4 = a dynamic-level statement: its effective level, not the call site's placeholder, decides)
+          ops.push_back(Op{OP_LOG, lg, static_cast<int64_t>(r.below(5)), lvl, static_cast<int64_t>(r.next() >> 8),
                            static_cast<int64_t>(r.below(30)), 0});
         }
       }
       // flush: explicit, or by a statement at or above the flush level
       if (flush_level != 10 && r.chance(1, 2))
       {
-        ops.push_back(Op{OP_LOG, lg, 0, r.range(flush_level, 8), static_cast<int64_t>(r.next() >> 8), 8, 0});
+        ops.push_back(Op{OP_LOG, lg, r.pick<int64_t>({0, 1, 4}), r.range(flush_level, 8), static_cast<int64_t>(r.next() >> 8), 8, 0});
       }
       else
       {
